@@ -10,7 +10,8 @@ META = {
     'bounds': {
         'quick': 'K<=2 mentions over 12 kinds x 5 names, values 1..2 chars (code points <256, no line breaks); 14 option '
                  'sets (quotes, compactBoolean, reverseAttributes, selfClosingStyle, attributeCase, jsx, vue, custom '
-                 'markup.attributes, and the pairs case+mapping, case+jsx, mapping+jsx, compact+case, reverse+quotes); char level: quoted / unquoted / shorthand value of <=2 chars',
+                 'markup.attributes, and the pairs case+mapping, case+jsx, mapping+jsx, compact+case, reverse+quotes); one mention of every kind on an element repeated by `*2` (on itself, a group, its parent); '
+                 'char level: quoted / unquoted / shorthand value of <=2 chars',
         'thorough': 'K<=3 mentions; char level <=3 chars',
     },
     'outside_claim': ['duplicates that mix expression, boolean or implied mentions with plain ones (the property does not '
@@ -112,7 +113,7 @@ def reference(mentions, opts, syntax):
     return out
 
 
-def mk_merge(K, optset, syntax, k1fix):
+def mk_merge(K, optset, syntax, k1fix, reps=False):
     from vf.pipe import expand_injected, make_config, set_literal, Recorder, rope_eq
     opts = dict(OPTSETS[optset])
     opts['output.format'] = False
@@ -122,8 +123,8 @@ def mk_merge(K, optset, syntax, k1fix):
             return False
         return True if (ascii_only(v, 256) & lb_free(v)) else False
 
-    def run(ms, wrong=False):
-        """ms: list of (kind, name_index, value)"""
+    def run(ms, wrong=False, rp=0):
+        """ms: list of (kind, name_index, value); rp: 0 plain, 1 `ex..*2`, 2 `(ex..)*2`, 3 `ey*2>ex..` (every copy carries the attributes)"""
         parts = []
         mentions = []
         used = []
@@ -141,9 +142,15 @@ def mk_merge(K, optset, syntax, k1fix):
         exp = reference(mentions, opts, syntax)
         if exp is None:
             return 'skip'
+        abbr = 'ex' + ''.join(parts)
+        if rp == 1:
+            abbr, exp = abbr + '*2', exp + exp
+        elif rp == 2:
+            abbr, exp = '(' + abbr + ')*2', exp + exp
+        elif rp == 3:
+            abbr, exp = 'ey*2>' + abbr, (['<ey>'] + exp + ['</ey>']) * 2
         if wrong:
             exp = exp + [' ']
-        abbr = 'ex' + ''.join(parts)
 
         def edit(toks):
             for marker, v in used:
@@ -158,7 +165,12 @@ def mk_merge(K, optset, syntax, k1fix):
         return True
 
     def harness(wrong):
-        def h(k2: int, k3: int, n1: int, n2: int, n3: int, l1: int, l2: int, l3: int, v1: str, v2: str, v3: str):
+        def h(k2: int, k3: int, n1: int, n2: int, n3: int, l1: int, l2: int, l3: int, v1: str, v2: str, v3: str, rp: int):
+            if reps:
+                if not (1 <= rp <= 3):
+                    return 'skip'
+            elif rp != 0:
+                return 'skip'
             ks, ns, vs, ls = [k1fix, k2, k3][:K], [n1, n2, n3][:K], [v1, v2, v3][:K], [l1, l2, l3][:K]
             ms = []
             for i in range(K):
@@ -176,10 +188,10 @@ def mk_merge(K, optset, syntax, k1fix):
             for i in range(K, 3):
                 if [k1fix, k2, k3][i] != 0 or [n1, n2, n3][i] != 0 or [l1, l2, l3][i] != 0 or len([v1, v2, v3][i]) != 0:
                     return 'skip'
-            return run(ms, wrong)
+            return run(ms, wrong, rp)
         return h
     w = dict(k2=0, k3=0, n1=0, n2=0, n3=0, l1=1 if k1fix in HASVAL else 0, l2=0, l3=0,
-             v1='x' if k1fix in HASVAL else '', v2='', v3='')
+             v1='x' if k1fix in HASVAL else '', v2='', v3='', rp=1 if reps else 0)
     if K >= 2:
         w.update(k2=DQ, n2=3, v2='yy', l2=2)
     if K >= 3:
@@ -187,7 +199,8 @@ def mk_merge(K, optset, syntax, k1fix):
     return {'fn': harness(False), 'twin': harness(True), 'witnesses': [w],
             'assumptions': ['element `ex` with %d attribute mentions; mention 1 has kind %d, other kinds and all names are '
                             'solver-chosen; values: 1..2 chars, code points <256, no line-break characters; syntax=%s '
-                            'options=%r' % (K, k1fix, syntax, OPTSETS[optset])],
+                            'options=%r%s' % (K, k1fix, syntax, OPTSETS[optset], '; the element is repeated (`*2` on it, on a group around it, '
+                                              'or on its parent: solver-chosen) and every copy must carry the attributes' if reps else '')],
             'functions': ['parser.attribute_set/short_attribute/attribute/quoted/literal', 'convert.convert_attribute',
                           'convert.create_attribute', 'markup.attributes.merge_attributes/merge_value/merge_declarations',
                           'format.html.push_attribute', 'output_stream.attr_quote/is_boolean_attribute/attr_name']}
@@ -270,6 +283,10 @@ def jobs(tier):
             out.append(Job('C03-a/merge/K=%d,%s,%s,k1=%d' % (K, o, syn, k1), 'vf.props.c03:mk_merge',
                            dict(K=K, optset=o, syntax=syn, k1fix=k1), shape='H', bound='K=%d mentions' % K,
                            budget=900 if q else 3000, weight=100))
+    for k1 in range(NKIND):
+        out.append(Job('C03-c/repeated/K=%d,k1=%d' % (1 if q else 2, k1), 'vf.props.c03:mk_merge',
+                       dict(K=1 if q else 2, optset='default', syntax='html', k1fix=k1, reps=True), shape='H',
+                       bound='%d mentions on a repeated element' % (1 if q else 2), budget=900 if q else 3000, weight=60))
     from vf.props.common import ASCII_PARTS
     for form in ('dq', 'sq', 'raw', 'class', 'id'):
         for (lo, hi) in ASCII_PARTS:
